@@ -52,6 +52,20 @@ fn float_text(spec: &str) -> String {
     }
 }
 
+/// A writer that takes at most `max` bytes per call and answers every `every`-th call with `Interrupted`
+/// (what a pipe, socket or tty may do): a log line must come out whole through it.
+struct Choppy { out: Vec<u8>, max: usize, every: usize, calls: usize }
+impl std::io::Write for Choppy {
+    fn write(&mut self, buf: &[u8]) -> std::io::Result<usize> {
+        self.calls += 1;
+        if self.every > 0 && self.calls % self.every == 0 { return Err(std::io::Error::new(std::io::ErrorKind::Interrupted, "interrupted")); }
+        let n = buf.len().min(self.max);
+        self.out.extend_from_slice(&buf[..n]);
+        Ok(n)
+    }
+    fn flush(&mut self) -> std::io::Result<()> { Ok(()) }
+}
+
 pub fn case(ctx: &mut Ctx, level: &str, tags: &str) {
     let specs: Vec<String> = tags.split(',').filter(|x| !x.is_empty()).map(|x| x.to_string()).collect();
     let floats: Vec<String> = specs.iter().map(|s| hex(float_text(s).as_bytes())).collect();
@@ -60,9 +74,16 @@ pub fn case(ctx: &mut Ctx, level: &str, tags: &str) {
         let tv: Vec<Tag> = specs.iter().map(|s| parse_tag(s)).collect();
         let level = match lv.as_str() { "error" => Level::Error, "info" => Level::Info, _ => Level::Debug };
         let ev = LogEvent::new(level, tv);
-        let mut out = Vec::new();
-        ev.write_jsonl(&mut out).unwrap();
-        hex(&out)
+        // the writer varies with the case: a Vec, or a writer that does short writes and reports interruptions
+        let k = specs.iter().map(|s| s.len()).sum::<usize>() + specs.len();
+        if k % 3 == 0 {
+            let mut out = Vec::new();
+            ev.write_jsonl(&mut out).unwrap();
+            hex(&out)
+        } else {
+            let mut w = Choppy { out: Vec::new(), max: [1, 7, 64, 4096][k % 4], every: [0, 2, 5][k % 3], calls: 0 };
+            match ev.write_jsonl(&mut w) { Ok(()) => hex(&w.out), Err(e) => format!("err:{:?}", e.kind()) }
+        }
     });
     ctx.emit("c17", &[level, tags, &floats.join(",")], &obs);
 }
